@@ -178,6 +178,10 @@ def install_api(I):
     def bv_ult(interp, a, b, w):
         return ops.simp(z3.ULT(_tobv(a, w), _tobv(b, w)))
 
+    def unsupported(interp, msg):
+        """for stubs: this use of the dependency is not modelled -> the job is undecided (never an exception of the program)"""
+        raise Unsupported("stub: " + str(msg))
+
     def subst(interp, term, pairs):
         """term[var := value ...]: simultaneous substitution of symbolic CONSTANTS (sym.int / sym.bool symbols) by values"""
         if not isinstance(term, SV):
@@ -240,7 +244,7 @@ def install_api(I):
         bv_const=NativeFn(bv_const, "bv_const"), bv_shl=NativeFn(bv_shl, "bv_shl"), bv_lshr=NativeFn(bv_lshr, "bv_lshr"),
         bv_or=NativeFn(bv_or, "bv_or"), bv_and=NativeFn(bv_and, "bv_and"), bv_eq=NativeFn(bv_eq, "bv_eq"),
         bv_ult=NativeFn(bv_ult, "bv_ult"), bv_ashr=NativeFn(bv_ashr, "bv_ashr"), bv_sle=NativeFn(bv_sle, "bv_sle"),
-        bv_smin=NativeFn(bv_smin, "bv_smin"), bv_smax=NativeFn(bv_smax, "bv_smax"), mk_ssa=NativeFn(mk_ssa, "mk_ssa"), subst=NativeFn(subst, "subst"), bv_sext=NativeFn(bv_sext, "bv_sext"), bv_zext=NativeFn(bv_zext, "bv_zext"),
+        bv_smin=NativeFn(bv_smin, "bv_smin"), bv_smax=NativeFn(bv_smax, "bv_smax"), mk_ssa=NativeFn(mk_ssa, "mk_ssa"), subst=NativeFn(subst, "subst"), unsupported=NativeFn(unsupported, "unsupported"), bv_sext=NativeFn(bv_sext, "bv_sext"), bv_zext=NativeFn(bv_zext, "bv_zext"),
         bv_add=NativeFn(bv_add, "bv_add"), bv_sub=NativeFn(bv_sub, "bv_sub"), bv_mul=NativeFn(bv_mul, "bv_mul"),
         rt_shape=NativeFn(rt_shape, "rt_shape"),
         rt_stride=NativeFn(rt_stride, "rt_stride"),
